@@ -4,6 +4,7 @@ import (
 	"encoding/json"
 	"fmt"
 	"github.com/nspcc-dev/neo-go/pkg/core/native/nativehashes"
+	"github.com/nspcc-dev/neo-go/pkg/smartcontract"
 	"slices"
 	"strings"
 	"sync"
@@ -276,6 +277,10 @@ type PermCase struct {
 	Groups []string   `json:"groups"` // groups of the callee's manifest (drawn independently of the deployed family)
 	Method string     `json:"method"`
 	Stored bool       `json:"stored"` // evaluate on the manifest after a stack-item round trip (the form contracts are stored in)
+	// JSONEdit (JSON form only): the first permission as a deployer may write it by hand: "methods-null",
+	// "methods-missing", "contract-null", "contract-missing", "empty" ({}). Such a permission names no method (no
+	// contract): the manifest has to be refused, or the permission must match nothing; it is never a wildcard.
+	JSONEdit string `json:"json_edit,omitempty"`
 }
 
 func genPermSpec(t *rapid.T) permSpec {
@@ -295,6 +300,9 @@ func genPermCase(t *rapid.T) PermCase {
 		Groups: rapid.SliceOfNDistinct(rapid.SampledFrom([]string{"G", "H", "Z"}), 0, 2, rapid.ID[string]).Draw(t, "groups"),
 		Method: pick(t, []string{"m", "n", "s", "other", ""}, "method"),
 		Stored: rapid.Bool().Draw(t, "stored"),
+	}
+	if e := pick(t, []string{"", "", "", "", "", "", "methods-null", "methods-missing", "contract-null", "contract-missing", "empty"}, "json_edit"); e != "" && !c.Stored && len(c.Perms) > 0 {
+		c.JSONEdit = e
 	}
 	for i := range c.Perms {
 		if c.Perms[i].Methods == nil && !c.Perms[i].Wild {
@@ -342,6 +350,9 @@ func checkPermCase(c PermCase, o *vt.Obs) error {
 		raw, err := json.Marshal(mm.Permissions)
 		if err != nil {
 			return err
+		}
+		if c.JSONEdit != "" {
+			return checkHandWrittenPermission(c, raw, hash, cm, o)
 		}
 		var back []manifest.Permission
 		if err := json.Unmarshal(raw, &back); err != nil {
@@ -485,5 +496,74 @@ func checkPermCallCase(c PermCallCase, o *vt.Obs) error {
 		o.Label("decided-by-method-list")
 		o.NonTrivial()
 	}
+	return nil
+}
+
+// checkHandWrittenPermission: the permission list as JSON with the first entry lacking its "methods" and / or
+// "contract" member (absent or null). "A call of a non-safe method is permitted iff one permission matches both the
+// callee and the method name": an entry that names no method cannot match a method name, so either the manifest is
+// refused (decoding error or Manifest.IsValid, as ContractManagement.deploy applies them) or the entry allows nothing.
+func checkHandWrittenPermission(c PermCase, raw []byte, hash util.Uint160, cm *manifest.Manifest, o *vt.Obs) error {
+	var list []map[string]json.RawMessage
+	if err := json.Unmarshal(raw, &list); err != nil || len(list) == 0 {
+		return fmt.Errorf("permissions JSON %s: %v", raw, err)
+	}
+	switch c.JSONEdit {
+	case "methods-null":
+		list[0]["methods"] = json.RawMessage("null")
+	case "methods-missing":
+		delete(list[0], "methods")
+	case "contract-null":
+		list[0]["contract"] = json.RawMessage("null")
+	case "contract-missing":
+		delete(list[0], "contract")
+	case "empty":
+		list[0] = map[string]json.RawMessage{}
+	default:
+		return nil
+	}
+	edited, err := json.Marshal(list[:1])
+	if err != nil {
+		return err
+	}
+	mm := manifest.NewManifest("caller")
+	mm.ABI.Methods = []manifest.Method{{Name: "run", ReturnType: smartcontract.VoidType}}
+	if err := mm.IsValid(util.Uint160{1, 2, 3}, true); err != nil {
+		return fmt.Errorf("harness: the base manifest is invalid: %v", err)
+	}
+	full, err := json.Marshal(mm)
+	if err != nil {
+		return err
+	}
+	var doc map[string]json.RawMessage
+	if err := json.Unmarshal(full, &doc); err != nil {
+		return err
+	}
+	doc["permissions"] = edited
+	full, err = json.Marshal(doc)
+	if err != nil {
+		return err
+	}
+	o.Label("hand-written-permission/" + c.JSONEdit)
+	o.Units(1)
+	back := new(manifest.Manifest)
+	if err := json.Unmarshal(full, back); err != nil {
+		o.Label("hand-written-permission-refused")
+		o.NonTrivial()
+		return nil
+	}
+	if err := back.IsValid(util.Uint160{1, 2, 3}, true); err != nil {
+		o.Label("hand-written-permission-refused")
+		o.NonTrivial()
+		return nil
+	}
+	for _, m := range []string{c.Method, "m", "anything"} {
+		if back.CanCall(hash, cm, m) {
+			return fmt.Errorf("manifest with the hand-written permission %s is accepted (json.Unmarshal and Manifest.IsValid) and CanCall(%s, groups %v, %q) = true: a permission that names no %s works as a wildcard",
+				edited, calleeNames[c.Callee], c.Groups, m, map[bool]string{true: "contract", false: "method"}[strings.HasPrefix(c.JSONEdit, "contract")])
+		}
+	}
+	o.Label("hand-written-permission-allows-nothing")
+	o.NonTrivial()
 	return nil
 }
